@@ -52,6 +52,16 @@ func short(s string) string {
 // judge: finals maps an incarnation id to the final list of that incarnation (without
 // the incarnation id itself).
 func (o *listOracle) judge(finals map[string][]string, recs []appendRec) {
+	// one case reports each kind of anomaly at most twice
+	reported := map[string]int{}
+	report := o.fail
+	o.fail = func(key, what string) {
+		reported[key]++
+		if reported[key] <= 2 {
+			report(key, what)
+		}
+	}
+	defer func() { o.fail = report }()
 	byID := map[string]appendRec{}
 	for _, a := range recs {
 		byID[a.ID] = a
